@@ -63,6 +63,7 @@ func smbC05Case(c *h.Ctx, mk func() command_interface.CommandInterface, k *smbCa
 	// ---- direction 1: library encoder against the reference bytes
 	lib, merr, p := smbMarshal(x)
 	c.Exec(1)
+	c.Retain(site, lib, k.sample())
 	switch {
 	case p != "":
 		c.Fail(site, "marshal-error@"+k.patClass(), "panic: "+p, k.sample())
@@ -184,6 +185,7 @@ func c05Header(c *h.Ctx) error {
 		p := h.Guard(func() { lib, merr = hd.Marshal() })
 		c.Exec(1)
 		sample := map[string]interface{}{"header_case": k.K, "reference_hex": h.Hex(k.Wire)}
+		c.Retain(site+".Marshal", lib, sample)
 		if p != "" || merr != nil {
 			c.Fail(site+".Marshal", "marshal-error", fmt.Sprintf("%v %s", merr, p), sample)
 		} else {
@@ -253,6 +255,7 @@ func c05Dialects(c *h.Ctx) error {
 		var merr error
 		p := h.Guard(func() { lib, merr = d.Marshal() })
 		c.Exec(1)
+		c.Retain("dialects.Dialects.Marshal", lib, sample)
 		aspect := "layout:n>=2"
 		if len(names) < 2 {
 			aspect = fmt.Sprintf("layout:n=%d", len(names))
